@@ -27,7 +27,8 @@ REQUIRED_COUNTERS = {"tasks_compared": {"quick": 2000, "thorough": 40000},
                      "two_run_cases": {"quick": 2, "thorough": 4},
                      "same_thread_name_cases": {"quick": 2, "thorough": 4},
                      "pingpong_falsy_callable": {"quick": 4, "thorough": 12},
-                     "pingpong_abandon_on_cancel": {"quick": 4, "thorough": 12}}
+                     "pingpong_abandon_on_cancel": {"quick": 4, "thorough": 12},
+                     "pingpong_abandon_mixed": {"quick": 4, "thorough": 12}}
 SHARD_TIMEOUT = {"quick": 400, "thorough": 5400}
 
 
@@ -38,7 +39,7 @@ def plan(tier, seed):
                        "depth": 3 if tier == "quick" else 4, "fan": 2 if tier == "quick" else 3,
                        "budget_s": 45 if tier == "quick" else 1500})
     shards.append({"interp": "3.12", "leg": "pingpong", "seed": seed, "max_depth": 4 if tier == "quick" else 7,
-                   "reps": 3 if tier == "quick" else 6})
+                   "reps": 4 if tier == "quick" else 8})
     return shards
 
 
@@ -296,6 +297,10 @@ def worker(spec):
         if VARIANT[0] == "falsy_callable":
             # the sync function is a callable object that happens to be falsy (an empty container with __call__)
             return await trio.to_thread.run_sync(FalsyCallable(), k + 1)
+        if VARIANT[0] == "abandon_mixed" and k % 4 == 0:
+            # only every other hop is an abandon_on_cancel one: a system task serving one call becomes the
+            # host of the next, plain, reentrant call (Trio swaps its context meanwhile)
+            return await trio.to_thread.run_sync(sync_lvl, k + 1, abandon_on_cancel=True)
         if VARIANT[0] == "abandon_on_cancel":
             # Trio then serves the thread's from_thread.run() in a system task instead of this task
             return await trio.to_thread.run_sync(sync_lvl, k + 1, abandon_on_cancel=True)
@@ -343,7 +348,7 @@ def worker(spec):
     user = ("runner", "sync_lvl", "async_lvl", "bottom_sync", "bottom_async")
     for rep in range(spec["reps"]):
         for d in range(0, spec["max_depth"] + 1):
-            VARIANT[0] = ("function", "falsy_callable", "abandon_on_cancel")[rep % 3]
+            VARIANT[0] = ("function", "falsy_callable", "abandon_on_cancel", "abandon_mixed")[rep % 4]
             res.evaluations += 1
             res.count("pingpong_chains")
             res.count("pingpong_" + VARIANT[0])
